@@ -107,7 +107,7 @@ def run_generators():
         st["gen_core"]["functions"] = json.load(open(os.path.join(WORK, "gen_core.json")))
     except Exception:
         st["gen_core"]["functions"] = {}
-    for name in ("gen_const", "gen_tables", "gen_ctors"):
+    for name in ("gen_const", "gen_tables", "gen_ctors", "gen_divs"):
         script = os.path.join(VERIF, "harness", name + ".py")
         if os.path.exists(script):
             rc, out = sh([PY, script, REPO, os.path.join(COQ, "gen"), WORK], timeout=300,
@@ -115,7 +115,7 @@ def run_generators():
             st[name] = {"rc": rc, "out": out[-2000:]}
             if rc != 0:
                 # fail closed: a generator that cannot read the tree must not leave a stale table behind
-                gen = os.path.join(COQ, "gen", {"gen_tables": "GenHandlers.v", "gen_const": "GenConst.v", "gen_ctors": "GenCtors.v"}[name])
+                gen = os.path.join(COQ, "gen", {"gen_tables": "GenHandlers.v", "gen_const": "GenConst.v", "gen_ctors": "GenCtors.v", "gen_divs": "GenDivs.v"}[name])
                 open(gen, "w").write("(* generator failed *)\nDefinition generator_failed := tt tt.\n")
     return st
 
